@@ -248,6 +248,9 @@ func kvKeys(w *world.World) [][]byte {
 func kvMenu(w *world.World, tier Tier) []world.Action {
 	var acts []world.Action
 	values := [][]byte{{}, []byte("vv"), []byte("v"), []byte("vvvv")}
+	// values that differ from the stored "vv" in letter case only, and pairs of binary values that
+	// are both invalid UTF-8 and differ at the same position
+	caseValues := [][]byte{[]byte("VV"), []byte("Vv"), {0x00, 0x80}, {0x00, 0x81}, {0xff}, {0xfe}}
 	keys := kvKeys(w)
 	type cr struct{ c, r []byte }
 	callers := []cr{{uni.A0, uni.A0}, {uni.B0, uni.A0}, {uni.S0, uni.S0}, {uni.A0, uni.S0}}
@@ -284,6 +287,13 @@ func kvMenu(w *world.World, tier Tier) []world.Action {
 					acts = append(acts, uni.Call(uni.A0, uni.A0, vmcommon.BuiltInFunctionSaveKeyValue, args...))
 				}
 			}
+		}
+	}
+	for _, x := range caseValues {
+		acts = append(acts, uni.Call(uni.A0, uni.A0, vmcommon.BuiltInFunctionSaveKeyValue, []byte("k"), x))
+		for _, y := range caseValues {
+			// first x is stored, then y replaces it within the same call
+			acts = append(acts, uni.Call(uni.A0, uni.A0, vmcommon.BuiltInFunctionSaveKeyValue, []byte("n"), x, []byte("n"), y))
 		}
 	}
 	// the same key listed several times in one call (stored: k=vv, n absent), adjacent or not; the
